@@ -68,16 +68,16 @@ let render_call (c : call) : string =
   | CWrite n -> "write " ^ i_ n
   | CSendfile (off, n) -> "sendfile off=" ^ i_ off ^ " " ^ i_ n
   | CMkdir p -> "mkdir " ^ canon p
-  | CMkdirat p -> "mkdirat " ^ canon p
+  | CMkdirat (_, p) -> "mkdirat " ^ canon p
   | CRmdir p -> "rmdir " ^ canon p
   | CUnlink p -> "unlink " ^ canon p
-  | CUnlinkat n -> "unlinkat " ^ canon n
+  | CUnlinkat (_, n) -> "unlinkat " ^ canon n
   | CLink (a, b) -> "link " ^ canon a ^ " " ^ canon b
-  | CLinkat (a, b) -> "linkat " ^ canon a ^ " " ^ canon b
-  | CSymlinkat (t, n) -> "symlinkat " ^ canon t ^ " " ^ s_ n
-  | CReadlinkat (n, sz) -> "readlinkat " ^ s_ n ^ " " ^ i_ sz
+  | CLinkat (a, _, b) -> "linkat " ^ canon a ^ " " ^ canon b
+  | CSymlinkat (t, _, n) -> "symlinkat " ^ canon t ^ " " ^ s_ n
+  | CReadlinkat (_, n, sz) -> "readlinkat " ^ s_ n ^ " " ^ i_ sz
   | CFstat -> "fstat"
-  | CFstatat n -> "fstatat " ^ s_ n
+  | CFstatat (_, n) -> "fstatat " ^ s_ n
   | CAccess p -> "access " ^ canon p
   | CFtruncate -> "ftruncate"
   | CScandir p -> "scandir " ^ canon p
